@@ -107,13 +107,13 @@ var numKeywords = []string{"HeartBeatTimer", "DimmedGain", "PublishSystemStat", 
 	"SleepScreenSaver", "Webserver", "JSONonOutbound", "PanelBrightness"}
 var strKeywords = []string{"SetCalibrationProfile", "SimulateEnvironmentalHealth", "SetNetworkConfig"}
 var regKeywords = []string{"Flag#", "Mem", "Shift", "State"}
-var numArgs = []string{"", "0", "1", "2", "7", "007", "255", "2147483647", "2147483648", "4294967295", "4294967296",
+var numArgs = []string{"", "0", "1", "2", "7", "007", "010", "09", "0600", "012", "00", "0010", "08", "0x10", "0X1f", "0b1", "0o7", "1_0", "0_1", "+010", "-010", " 010", "010 ", "1e2", "255", "2147483647", "2147483648", "4294967295", "4294967296",
 	"9223372036854775807", "9223372036854775808", "18446744073709551616", "99999999999999999999999", "-1", "+1", "1,2", "1,2,3", "1,", ",1", "1.5", "a", " 1", "1 "}
-var idLists = []string{"1", "12", "1,2,3", "40,41", ",", "1,,2", ",1", "1,", "007", "0", "4294967295", "4294967296", "99999999999999999999", "", "a", "1 2", "-1"}
+var idLists = []string{"1", "12", "1,2,3", "40,41", ",", "1,,2", ",1", "1,", "007", "010", "09,010", "0x10", "1_0", "0", "4294967295", "4294967296", "99999999999999999999", "", "a", "1 2", "-1"}
 
 // a full 21-field text line in its canonical spelling, plus per-field variant tables
 var textFull = []string{"123", "1", "9", "Title", "1", "Lab1", "Lab2", "45", "2", "1", "-10", "10", "-5", "5", "", "83", "27", "13", "1", "68", "3"}
-var numVariants = []string{"", "0", "1", "3", "4", "7", "8", "10", "11", "12", "13", "63", "64", "65", "127", "128", "255", "256", "-1", "2147483647", "2147483648", "-2147483648", "4294967295", "4294967306", "x", "1x", "+2", " 1", "007"}
+var numVariants = []string{"", "0", "1", "3", "4", "7", "8", "10", "11", "12", "13", "63", "64", "65", "127", "128", "255", "256", "-1", "2147483647", "2147483648", "-2147483648", "4294967295", "4294967306", "x", "1x", "+2", " 1", "007", "010", "09", "0100", "0x1F", "0b11", "0o17", "1_0", "-010"}
 var strVariants = []string{"", "a", "Title text", "é漢", "0", " ", "=", ":", "a,b", "#1"}
 
 func isStringField(k int) bool { return k == 3 || k == 5 || k == 6 }
@@ -205,10 +205,19 @@ func (r *Rng) grammarBranch(k int) string {
 	case 0:
 		return bareKeywords[r.Intn(len(bareKeywords))]
 	case 1:
+		if r.Intn(3) == 0 {
+			return numKeywords[r.Intn(len(numKeywords))] + "=" + r.AltDecimal()
+		}
 		return numKeywords[r.Intn(len(numKeywords))] + "=" + fmt.Sprint(r.U32b())
 	case 2:
+		if r.Intn(3) == 0 {
+			return "PanelBrightness=" + r.AltDecimal() + "," + r.AltDecimal()
+		}
 		return fmt.Sprintf("PanelBrightness=%d,%d", r.Intn(9), r.Intn(9))
 	case 3:
+		if r.Intn(4) == 0 {
+			return "HWC#" + r.AltDecimal() + "=" + r.AltDecimal()
+		}
 		return fmt.Sprintf("HWC#%d=%d", 1+r.Intn(99), r.Intn(65536))
 	case 4:
 		return fmt.Sprintf("HWCc#%d=%d", 1+r.Intn(99), r.Intn(256))
@@ -227,6 +236,23 @@ func (r *Rng) grammarBranch(k int) string {
 	}
 	return []string{"SimulateEnvironmentalHealth=Normal", "SimulateEnvironmentalHealth=Safemode", "SimulateEnvironmentalHealth=Blocked",
 		"SetCalibrationProfile={\"a\":1}", "SetNetworkConfig={\"dhcp\":true}", "SetNetworkConfig={\"address\":\"10.0.0.9\",\"netmask\":\"255.0.0.0\"}"}[r.Intn(6)]
+}
+
+// a decimal numeral in an alternative spelling: leading zeros (which a radix-guessing parser
+// would read as octal), or a spelling only such a parser accepts
+func (r *Rng) AltDecimal() string {
+	v := r.Pick([]int{0, 1, 7, 8, 9, 10, 12, 17, 64, 100, 255, 600, 777, 4096})
+	switch r.Intn(8) {
+	case 0, 1, 2, 3:
+		return strings.Repeat("0", 1+r.Intn(3)) + fmt.Sprint(v)
+	case 4:
+		return fmt.Sprintf("0x%x", v)
+	case 5:
+		return fmt.Sprintf("0b%b", v)
+	case 6:
+		return fmt.Sprintf("0o%o", v)
+	}
+	return fmt.Sprintf("1_%d", v)
 }
 
 // ---------------------------------------------------------------- generator
@@ -252,7 +278,7 @@ func genC02(tier string, rng *Rng) {
 		for v := 0; v < 65536; v++ {
 			ls = append(ls, fmt.Sprintf("%s%d=%d", kw, 1+v%90, v))
 		}
-		for _, v := range []string{"65536", "65537", "131071", "4294967295", "4294967296", "9223372036854775807", "9223372036854775808", "-1", "-64", "", "x", "1x", "+5", "007"} {
+		for _, v := range []string{"65536", "65537", "131071", "4294967295", "4294967296", "9223372036854775807", "9223372036854775808", "-1", "-64", "", "x", "1x", "+5", "007", "010", "0377", "09", "0x20", "0b100000", "0o40", "1_00", "00292"} {
 			ls = append(ls, kw+"3="+v)
 		}
 		chunk("packed-sweep "+kw, ls, 128)
@@ -324,7 +350,7 @@ func genC02(tier string, rng *Rng) {
 	}
 	for _, kw := range regKeywords {
 		for _, id := range []string{"", "A", "A1", "7", "007", "12", "ABC123", "a", "#", "Z9", "99999999999999999999", "É"} {
-			for _, v := range []string{"0", "1", "2", "4294967295", "4294967296", "", "-1", "x"} {
+			for _, v := range []string{"0", "1", "2", "4294967295", "4294967296", "", "-1", "x", "010", "09", "0x10", "1_0", "+1"} {
 				runC02("register", []string{kw + id + "=" + v})
 			}
 		}
@@ -374,6 +400,19 @@ func genC02(tier string, rng *Rng) {
 				runC02("gfx-simple-simple", append(append(append([]string{"HWC#1=4"}, simple(6, ty)...), "ping"), simple(id2, ty)...))
 			}
 		}
+	}
+	// alternative spellings of every number of a graphics line (index, last index, size, offset, ids)
+	runC02("gfx-leading-zeros", []string{"HWCg#07=00/01,010x08,010,09:QUFB", "HWCg#07=01:Q0ND"})
+	runC02("gfx-leading-zeros", []string{"HWCgRGB#010=0/001,0064x0032:QUFB", "HWCgRGB#010=001:Q0ND"})
+	runC02("gfx-leading-zeros", []string{"HWCg#7=0/0x1,8x8:QUFB", "HWCg#7=0x1:Q0ND", "HWCg#7=0/1_0,8x8:QUFB", "HWCg#0b1=0/0,8x8:QUFB"})
+	for i := 0; i < 200*scale; i++ {
+		a := func() string { return rng.AltDecimal() }
+		runC02("alt-decimal-lines", []string{
+			"HWC#" + a() + "=" + a(), "HWCc#" + a() + "," + a() + "=" + a(), "HWCx#" + a() + "=" + a(), "HWCrawADCValues#" + a() + "=" + a(),
+			"HWCt#" + a() + "=" + a() + "|" + a() + "|" + a() + "|T|" + a() + "|a|b|" + a() + "|" + a() + "|" + a() + "|" + a() + "|" + a() + "|" + a() + "|" + a() + "||" + a() + "|" + a() + "|" + a() + "|" + a() + "|" + a() + "|" + a(),
+			numKeywords[rng.Intn(len(numKeywords))] + "=" + a(), "PanelBrightness=" + a(), "PanelBrightness=" + a() + "," + a(),
+			"Mem" + "A" + "=" + a(), "Shift=" + a(), "StateZ9=" + a(), "Flag#" + a() + "=" + a(),
+			"HWCg#" + a() + "=" + "0/" + a() + "," + a() + "x" + a() + "," + a() + "," + a() + ":QUFB"})
 	}
 	runC02("gfx-simple", []string{"HWCg#7=0:QUFB", "HWCg#7=1:Q0ND", "HWCg#7=2:RERE"})
 	runC02("gfx-simple", []string{"HWCg#7=0:QUFB", "HWCg#7=2:Q0ND", "HWCg#7=2:RERE"})
